@@ -824,6 +824,11 @@ func genOp(t *rapid.T, roots []*rj.Node, mix opMix) (editOp, bool) {
 			op.Kind = legal[rapid.IntRange(0, len(legal)-1).Draw(t, "legalkind")]
 		}
 		genSetValue(t, &op, mix.nonFinite)
+		if (op.Kind == "SetString" || op.Kind == "SetStringBytes") && node.K == rj.Str && len(node.S) > 0 && rapid.IntRange(0, 2).Draw(t, "samelen") == 0 {
+			// a replacement that is not longer than the string it replaces
+			n := rapid.IntRange(1, len(node.S)).Draw(t, "newlen")
+			op.S = bytes.Repeat([]byte{'R'}, n)
+		}
 	case "nullc":
 		// SetNull on a nested container; or a documented-illegal Set* on it
 		nested := containers[:len(containers)-nroots]
